@@ -27,7 +27,7 @@ SPEC = {
              "non-trivial = contains a non-Identity leaf"),
     "boundscheck": {"quick": False, "thorough": True},
     "case_timeout": 180.0,
-    "deciding_monitors": ["Linop.apply"],
+    "deciding_monitors": ["Linop.apply", "in:layout:F", "in:layout:strided", "in:complex64", "in:float64"],
     "assumptions": ["CPU/numpy backend only; ToDevice, AllReduce*, Sense(comm=...) and "
                     "Sense(transp_nufft=True) are not exercised",
                     "operators with at most ~400 inputs/outputs, trees of depth <= 4"],
